@@ -144,8 +144,7 @@ theorem hash_deterministic (H : Bytes → Bytes) (t₁ t₂ : MTree) (h : t₁.r
 
 /-! ## Non-vacuity -/
 example : isInt64 (-9223372036854775808) ∧ isInt64 9223372036854775807 := by decide
-example : encodeVarint (-3) = [5] ∧ encodeVarint 300 = [0xd8, 0x04] := by
-  constructor <;> (unfold encodeVarint zigzag; simp [encodeUvarint])
+example : encodeVarint (-3) = [5] ∧ encodeVarint 300 = [0xd8, 0x04] := by decide
 example : decodeVarint [0xd8, 0x04, 7] = some (300, [7]) := by decide
 private def leafRec : NodeRec := ⟨0, 1, 7, [1, 2], [3], [], []⟩
 private def innerRec : NodeRec := ⟨1, 2, 7, [1, 2], [], [9, 9], [8]⟩
